@@ -29,7 +29,6 @@ Inductive site_class :=
 | ClsLenOnly         (* enums.rs variant_names: collect, then len() *)
 | ClsSubset          (* util.rs object_schemas_mutually_exclusive: collect, then is_subset *)
 | ClsCountsEntryGet  (* type_entry.rs counts: entry().and_modify().or_insert(), get() *)
-| ClsImplsToVec      (* token_utils.rs impls: insert/remove, into_iter() -> Vec<TypeSpaceImpl> *)
 | ClsSettingsInsert  (* macro patch/replace: HashMap iterated into BTreeMap::insert, keys injective *)
 | ClsCratesInsert    (* macro crates: HashMap iterated into BTreeMap::insert, key = original name *)
 | ClsEnvSchemaPath   (* macro: CARGO_MANIFEST_DIR / current_dir locate the schema file *)
@@ -73,13 +72,10 @@ Definition known_sites : list (site * site_class) := [
   (St "typify-macro/src/lib.rs" "do_import_types" "HashMap" "call:replace.into_iter.for_each", ClsSettingsInsert);
   (St "typify-macro/src/lib.rs" "do_import_types" "HashMap" "call:crates.into_iter.for_each", ClsCratesInsert);
   (St "typify-macro/src/lib.rs" "do_import_types" "env" "path:std::env::var", ClsEnvSchemaPath);
-  (St "typify-macro/src/lib.rs" "do_import_types" "env" "path:std::env::current_dir", ClsEnvSchemaPath);
-  (St "typify-macro/src/token_utils.rs" "<top>" "HashSet" "import:std::collections::HashSet", ClsImport);
-  (St "typify-macro/src/token_utils.rs" "TypeAndImpls::into_name_and_impls" "HashSet" "path:HashSet", ClsTypeMention);
-  (St "typify-macro/src/token_utils.rs" "TypeAndImpls::into_name_and_impls" "HashSet" "bind:impls", ClsBinding);
-  (St "typify-macro/src/token_utils.rs" "TypeAndImpls::into_name_and_impls" "HashSet" "call:impls.insert", ClsImplsToVec);
-  (St "typify-macro/src/token_utils.rs" "TypeAndImpls::into_name_and_impls" "HashSet" "call:impls.remove", ClsImplsToVec);
-  (St "typify-macro/src/token_utils.rs" "TypeAndImpls::into_name_and_impls" "HashSet" "call:impls.into_iter", ClsImplsToVec)
+  (St "typify-macro/src/lib.rs" "do_import_types" "env" "path:std::env::current_dir", ClsEnvSchemaPath)
+  (* typify-macro/src/token_utils.rs: the HashSet of into_name_and_impls was replaced by a BTreeSet in
+     fix 9ffca46 (finding C12-F1); its six sites are no longer whitelisted: a HashSet re-introduced
+     there is UNCOVERED (its Vec order is observable, see C12_macro_impls_hashset_regression_witness) *)
 ].
 Close Scope string_scope.
 
@@ -176,11 +172,36 @@ Inductive timpl := IFromStr | IDisplay | IDefault.
 Definition timpl_eqb (a b : timpl) : bool :=
   match a, b with IFromStr, IFromStr | IDisplay, IDisplay | IDefault, IDefault => true | _, _ => false end.
 
-(* token_utils.rs:27-44.  modifiers: (true, i) = `i` (insert), (false, i) = `?i` (remove) *)
-Definition macro_impls (place : timpl -> list timpl -> list timpl) (mods : list (bool * timpl)) : list timpl :=
+Definition timpl_rank (a : timpl) : nat := match a with IFromStr => 0 | IDisplay => 1 | IDefault => 2 end.
+(* derive(Ord) on TypeSpaceImpl: declaration order FromStr < Display < Default (lib.rs:394-400) *)
+Definition timpl_cmp (a b : timpl) : comparison := Nat.compare (timpl_rank a) (timpl_rank b).
+
+(* BTreeSet<TypeSpaceImpl> as a strictly sorted list *)
+Fixpoint bs_insert (x : timpl) (s : list timpl) : list timpl :=
+  match s with
+  | [] => [x]
+  | y :: r => match timpl_cmp x y with Lt => x :: s | Eq => s | Gt => y :: bs_insert x r end
+  end.
+Definition bs_remove (x : timpl) (s : list timpl) : list timpl := filter (fun y => negb (timpl_eqb x y)) s.
+
+(* token_utils.rs:22-47 (since fix 9ffca46): DEFAULT_IMPLS collected into a BTreeSet, listed impls
+   inserted / `?`-removed, `into_iter()` (ascending).  modifiers: (true, i) = `i`, (false, i) = `?i`.
+   No hasher argument any more: the Vec is a function of the macro input. *)
+Definition macro_impls (mods : list (bool * timpl)) : list timpl :=
+  fold_left (fun (s : list timpl) (m : bool * timpl) => if fst m then bs_insert (snd m) s else bs_remove (snd m) s)
+            mods (fold_left (fun s x => bs_insert x s) [IFromStr; IDisplay] []).
+
+(* the code BEFORE the fix (std HashSet with a hasher): kept only as the regression witness that
+   explains why a HashSet at this site is not whitelisted *)
+Definition macro_impls_hashset (place : timpl -> list timpl -> list timpl) (mods : list (bool * timpl)) : list timpl :=
   fold_left (fun (s : list timpl) (m : bool * timpl) => if fst m then snd (hs_insert timpl timpl_eqb place (snd m) s)
                         else hs_remove timpl timpl_eqb (snd m) s)
             mods (hs_collect timpl timpl_eqb place [IFromStr; IDisplay]).
+
+(* the eight strictly sorted lists over the three impls *)
+Definition all_sorted_impls : list (list timpl) :=
+  [ []; [IFromStr]; [IDisplay]; [IDefault]; [IFromStr; IDisplay]; [IFromStr; IDefault]; [IDisplay; IDefault];
+    [IFromStr; IDisplay; IDefault] ].
 
 (* consumer 1: type_entry.rs:653  details.impls.contains(&impl_name) *)
 Definition native_has_impl (impls : list timpl) (i : timpl) : bool := mem timpl timpl_eqb i impls.
